@@ -423,6 +423,11 @@ class Emitter:
     def ex_InitListExpr(self, e):
         t = self.ct(e['type']); ks = kids(e)
         if t.kind in ('prim', 'ptr', 'enum'): return self.ex(ks[0]) if ks else '0'
+        if len(ks) == 1 and 'type' in ks[0]:
+            try:
+                kt = self.ct(ks[0]['type'])
+                if kt.kind == t.kind and self.cn(kt) == self.cn(t): return self.ex(ks[0])   # T x{expr of type T}: copy
+            except Abort: pass
         return '{' + ', '.join(self.ex(x) for x in ks) + '}' if ks else '{0}'
 
     def ex_CXXScalarValueInitExpr(self, e): return '0'
